@@ -1,5 +1,5 @@
 (* C13 - disconnect always releases the connection; a new connection starts clean. *)
-From LibFtp Require Import Bytes Decimal Reply Endpoint Ascii DataConn DataConn_Proofs Client Client_Proofs Login_Proofs Transfer_Proofs Transfer_More.
+From LibFtp Require Import Bytes Decimal Reply Endpoint Ascii DataConn DataConn_Proofs Client Client_Proofs Login_Proofs Transfer_Proofs Transfer_More Modes_Proofs Ctl_Proofs History_Proofs Session_Proofs.
 Local Open Scope N_scope.
 
 (* non-graceful disconnect from ANY state (failed control or data handshake, dead peer, exception in the middle of
@@ -48,3 +48,13 @@ Theorem C13_connect_starts_in_step : forall w h p s srest g,
     obs_events (skipn (length (w_trace w)) (w_trace w')) = told (w_obs w) (OConnected h p) ++ told (w_obs w) (OReply g).
 Proof. exact connect_plain. Qed.
 Print Assumptions C13_connect_starts_in_step.
+
+(* graceful disconnect from a plain session in step: QUIT is sent, its reply returned, then the connection is closed: disconnected, plain, nothing buffered *)
+Theorem C13_quit_releases : forall w r rest x,
+  insync w (r :: rest) -> w_ssl w = false -> simple_reaction r x ->
+  exists w', step w (ADisconnect true) = (OReturn (RvOptReply (Some x)), w') /\
+    w_open w' = false /\ w_ssl w' = false /\ w_backlog w' = [] /\ w_pending w' = [] /\ w_data w' = w_data w /\
+    w_script w' = w_script w /\
+    wire_events (skipn (length (w_trace w)) (w_trace w')) = [WLine QUIT_; WReply x].
+Proof. exact quit_call. Qed.
+Print Assumptions C13_quit_releases.
